@@ -17,28 +17,28 @@ const METAS: &[PropMeta] = &[
     PropMeta {
         id: "C01",
         level: "exploration",
-        rule: "seeded Raft-legal histories (vote/append/truncate/purge/commit/user-data/flush) under a random chunk configuration; after EVERY operation the real store's state, read(0,MAX), 3 random sub-ranges and stat() are compared with an in-memory reference log. A case is one history; it is non-trivial if it journalled >=5 records and rotated chunks at least once; distinct = distinct (config, operation list). Histories also contain update_state (vote/commit/user-data change keeping last and purged) and read-only calls (dump, snapshot iteration, abandoned dump).",
+        rule: "seeded Raft-legal histories (vote/append/truncate/purge/commit/user-data/flush) under a random chunk configuration; after EVERY operation the real store's state, read(0,MAX), 3 random sub-ranges and stat() are compared with an in-memory reference log. A case is one history; it is non-trivial if it journalled >=5 records and rotated chunks at least once; distinct = distinct (config, operation list). Histories also contain update_state (vote/commit/user-data change keeping last and purged) and read-only calls (dump, snapshot iteration, abandoned dump). A third of the large-cache histories end with a burst of calls with arguments at the integer limits: where specification and store both accept a call their states are compared as well.",
         assumptions: &["reference model = plain in-memory Raft log written from the property statement", "payload cache limits left at defaults (cache pressure is C07)", "types: LogId=(u64,u64), payload=String"],
         min_distinct: 20,
     },
     PropMeta {
         id: "C02",
         level: "exploration",
-        rule: "histories as in C01 with clean restarts (flush, ack, worker idle, drop, open) at random positions and a NEW random configuration at every open; across each restart state, all entries and the Dump text must be unchanged and the continued history must keep agreeing with the reference log. Non-trivial = at least one restart and >=5 records; distinct = distinct (config, operation list). Half of the histories use tiny cache limits at every open (never re-appending at or below a removed id), a third inject EIO into the n-th chunk-file creation by the caller (the runner follows what the store reports for the failed call), 4% of the steps are calls the specification refuses; the full-queue scenario (1024 flushes queued behind a parked worker + one blocked sender) ends with a clean restart.",
+        rule: "histories as in C01 with clean restarts (flush, ack, worker idle, drop, open) at random positions and a NEW random configuration at every open; across each restart state, all entries and the Dump text must be unchanged and the continued history must keep agreeing with the reference log. Non-trivial = at least one restart and >=5 records; distinct = distinct (config, operation list). Half of the histories use tiny cache limits at every open (never re-appending at or below a removed id), a third inject EIO into the n-th chunk-file creation by the caller (the runner follows what the store reports for the failed call), 4% of the steps are calls the specification refuses; the full-queue scenario (1024 flushes queued behind a parked worker + one blocked sender) ends with a clean restart. Restart equivalence is also judged on walks in which update_state (moving last / committed to ids of live entries, changing the vote) is mixed with calls a Raft node could make; no claim after a purge that follows a moved-back last.",
         assumptions: &["clean close = flush acknowledged and worker idle before drop (drop-without-idle is C14)"],
         min_distinct: 20,
     },
     PropMeta {
         id: "C06",
         level: "exploration",
-        rule: "histories as in C01 with calls the sequential specification rejects injected at ~25% of the steps (lower vote; append equal to last, lower term, at an existing index, with a gap; k-th entry of a batch refused; lower commit; truncate above last+1 / at or below purged). Around each such call: must return Err; state, all entries, cache item count/size, resident set, journal end, on-disk size unchanged; history continues in lock-step with the model; at the end flush + restart must open with the same state. Non-trivial = history with >=1 rejected call. Half of the histories use tiny cache limits (a refused call must not evict). A second Types instantiation with a PARTIALLY ordered vote (same term, different candidate = incomparable) checks that an incomparable vote is refused without trace and survives a restart. A third of the large-cache histories end with a burst of calls with arguments at the integer limits: whatever the specification refuses must be refused.",
+        rule: "histories as in C01 with calls the sequential specification rejects injected at ~25% of the steps (lower vote; append equal to last, lower term, at an existing index, with a gap; k-th entry of a batch refused; lower commit; truncate above last+1 / at or below purged). Around each such call: must return Err; state, all entries, cache item count/size, resident set, journal end, on-disk size unchanged; history continues in lock-step with the model; at the end flush + restart must open with the same state. Non-trivial = history with >=1 rejected call. Half of the histories use tiny cache limits (a refused call must not evict). A second Types instantiation with a PARTIALLY ordered vote (same term, different candidate = incomparable) checks that an incomparable vote is refused without trace and survives a restart. A third of the large-cache histories end with a burst of calls with arguments at the integer limits: whatever the specification refuses must be refused. Along walks of 20-60 calls with update_state as an ordinary step, every call that returns an error is framed by (state, all entries, cache item count, cache bytes), which must be unchanged.",
         assumptions: &["worker quiescent at the snapshot points", "a batch append is the sequence of its single-entry writes, stopping at the first refused entry"],
         min_distinct: 20,
     },
     PropMeta {
         id: "C11",
         level: "exploration",
-        rule: "histories as in C01; a reference journal predicts every chunk file byte-for-byte from the accepted records, the chunk limits and the rotation rule. After every flush+ack+idle: files on disk are a suffix of the predicted files and byte-identical, names = global offset of first record, files abut, on_disk_size() = journal end - oldest retained start, Dump (real decoder) = reference parse; after every write the returned segment = predicted place of that record; stat() bookkeeping = prediction. Non-trivial = >=1 rotation and >=5 records. Histories contain update_state and dump calls; a quarter inject EIO into a chunk-file creation and the reference journal models the rotation that did not happen; the full-queue scenario compares the files byte for byte after 1025 queued requests were drained.",
+        rule: "histories as in C01; a reference journal predicts every chunk file byte-for-byte from the accepted records, the chunk limits and the rotation rule. After every flush+ack+idle: files on disk are a suffix of the predicted files and byte-identical, names = global offset of first record, files abut, on_disk_size() = journal end - oldest retained start, Dump (real decoder) = reference parse; after every write the returned segment = predicted place of that record; stat() bookkeeping = prediction. Non-trivial = >=1 rotation and >=5 records. Histories contain update_state and dump calls; a quarter inject EIO into a chunk-file creation and the reference journal models the rotation that did not happen; the full-queue scenario compares the files byte for byte after 1025 queued requests were drained. A third of the large-cache histories end with a burst of limit-argument calls followed by a flush, so that what the accepted ones journalled is compared byte for byte.",
         assumptions: &["reference codec and rotation rule written from the format description", "file-name codec over all u64 is sampled, not exhaustive"],
         min_distinct: 20,
     },
@@ -52,14 +52,14 @@ const METAS: &[PropMeta] = &[
     PropMeta {
         id: "C12",
         level: "exploration",
-        rule: "generated records of all six kinds (every Option combination of the state record enumerated, integers from {0,1,2^8,2^16,2^32-1,2^32,2^63,u64::MAX,...}, payloads empty..70 kB incl. multi-byte UTF-8 and NUL): encode count = bytes produced, bytes = independent reference encoding, decode(encode(r)) = r consuming exactly n bytes also when followed by garbage; then mutants of each record (per-byte substitutions incl. all 255 values on short records, every truncation, multi-byte edits, inserted/deleted bytes, length prefixes up to 4 GiB-1, random strings): decode under catch_unwind never panics, returns only UnexpectedEof/InvalidData, agrees with the reference decoder, and any Ok re-encodes to exactly the consumed bytes. A case is one decode; distinct = distinct valid records (by encoding) the mutants were derived from. The crate's state value is obtained by decoding a state body under catch_unwind (a panic there is a decode panic).",
+        rule: "generated records of all six kinds (every Option combination of the state record enumerated, integers from {0,1,2^8,2^16,2^32-1,2^32,2^63,u64::MAX,...}, payloads empty..70 kB incl. multi-byte UTF-8 and NUL): encode count = bytes produced, bytes = independent reference encoding, decode(encode(r)) = r consuming exactly n bytes also when followed by garbage; then mutants of each record (per-byte substitutions incl. all 255 values on short records, every truncation, multi-byte edits, inserted/deleted bytes, length prefixes up to 4 GiB-1, random strings): decode under catch_unwind never panics, returns only UnexpectedEof/InvalidData, agrees with the reference decoder, and any Ok re-encodes to exactly the consumed bytes. A case is one decode; distinct = distinct valid records (by encoding) the mutants were derived from. The crate's state value is obtained by decoding a state body under catch_unwind (a panic there is a decode panic). One record in eight is first encoded into a writer that gives up after a random number of bytes (must fail), then encoded again (must equal the reference); Commit records whose CRC-32 is 0, 1, 0xFFFFFFFF, 0x80000000 or random (low index bytes solved for by running the CRC backwards) must decode.",
         assumptions: &["harness types (u64 pairs, String); other Types instantiations not exercised", "reference codec written from the format description"],
         min_distinct: 100,
     },
     PropMeta {
         id: "C04",
         level: "fault_enumeration",
-        rule: "scheduled histories (tiny chunks, many flushes with and without callback, several flushes queued behind a parked worker, flushes right before/after rotations) in which the worker is stepped through its write/fdatasync/unlink calls by a seeded schedule, with fault plans: none / one failing fdatasync / two or three consecutive failing fdatasyncs / one failing, short or partial write / sync failure + short write. The recorded trace is replayed into a shadow file system (durable = snapshot at the last successful sync); at every Ack(Ok) event every byte journalled before that flush call must be durable in its chunk file; plus at-most-once, exactly-once without faults, callback order = call order, no Err without fault. Non-trivial = run with >=1 callback; distinct = distinct (thread, syscall kind, file) interleavings of the trace. Also: a failing chunk-file creation by the caller; the full-queue scenario (exactly 1024 flushes, 2 MiB of payload in half of the rounds, queued behind a parked worker plus one sender blocked on the full queue) checked with the same rules. A flush call that fails without an injected fault is a violation (its callback can never fire); full-queue rounds queue up to 6 MiB; a worker that sleeps with requests unprocessed (request lost) is reported as a callback never invoked.",
+        rule: "scheduled histories (tiny chunks, many flushes with and without callback, several flushes queued behind a parked worker, flushes right before/after rotations) in which the worker is stepped through its write/fdatasync/unlink calls by a seeded schedule, with fault plans: none / one failing fdatasync / two or three consecutive failing fdatasyncs / one failing, short or partial write / sync failure + short write. The recorded trace is replayed into a shadow file system (durable = snapshot at the last successful sync); at every Ack(Ok) event every byte journalled before that flush call must be durable in its chunk file; plus at-most-once, exactly-once without faults, callback order = call order, no Err without fault. Non-trivial = run with >=1 callback; distinct = distinct (thread, syscall kind, file) interleavings of the trace. Also: a failing chunk-file creation by the caller; the full-queue scenario (exactly 1024 flushes, 2 MiB of payload in half of the rounds, queued behind a parked worker plus one sender blocked on the full queue) checked with the same rules. A flush call that fails without an injected fault is a violation (its callback can never fire); full-queue rounds queue up to 6 MiB; a worker that sleeps with requests unprocessed (request lost) is reported as a callback never invoked. Single flushes of 3-12 MiB (10-40 appends of 120-500 kB journalled with the worker idle, then one flush with callback).",
         assumptions: &["a failed fdatasync leaves durable state unchanged; a later successful fdatasync of the same file makes everything written to it durable", "journal end at the flush call is taken from stat().open_chunk.global_end (cross-checked byte-exactly by C11)"],
         min_distinct: 20,
     },
@@ -94,7 +94,7 @@ const METAS: &[PropMeta] = &[
     PropMeta {
         id: "C15",
         level: "exploration",
-        rule: "same scheduled histories and cache limits as C07; at every point where the worker is parked or idle the hook verif_cache_resident() (resident (log id, size) list + boundary under the cache lock) is compared with stat(): item count, byte size, boundary; right after every append (worker parked/idle since before the call, so the boundary in force is the one observed) an over-limit cache must hold no resident id <= boundary; at the end (worker idle) drain_cache_evictable() must leave no resident id <= boundary, also after a reopen. Non-trivial = run with >10 observations; distinct = distinct (config, interleaving). The limits used are the CONFIGURED ones (and stat() must report them); in half of the runs three reader threads read continuously while the single drain call is made. The count/size rule is also evaluated after every call of walks in which update_state moves last/purged back so that log ids still resident are appended again, truncated, purged, drained and replayed by restarts. Large-chunk rounds: chunks of 70/151/300 records under max_items 0/3/10 keep a whole chunk pinned; after close + sync the boundary jumps over all of it and the next append must restore the limit clause.",
+        rule: "same scheduled histories and cache limits as C07; at every point where the worker is parked or idle the hook verif_cache_resident() (resident (log id, size) list + boundary under the cache lock) is compared with stat(): item count, byte size, boundary; right after every append (worker parked/idle since before the call, so the boundary in force is the one observed) an over-limit cache must hold no resident id <= boundary; at the end (worker idle) drain_cache_evictable() must leave no resident id <= boundary, also after a reopen. Non-trivial = run with >10 observations; distinct = distinct (config, interleaving). The limits used are the CONFIGURED ones (and stat() must report them); in half of the runs three reader threads read continuously while the single drain call is made. The count/size rule is also evaluated after every call of walks in which update_state moves last/purged back so that log ids still resident are appended again, truncated, purged, drained and replayed by restarts. Large-chunk rounds: chunks of 70/151/300 records under max_items 0/3/10 keep a whole chunk pinned; after close + sync the boundary jumps over all of it and the next append must restore the limit clause. Also: two threads call stat() in a tight loop while a third drains the cache (fixed-size payloads: every snapshot must satisfy bytes = 9 x items); a Types instantiation whose payload_size() is the payload capacity (not preserved by clone).",
         assumptions: &["hook H1 (feature verif-hooks) returns the cache map contents under its RwLock", "the limit clause is evaluated after appends only (the only writes that insert and evict)"],
         min_distinct: 20,
     },
@@ -115,14 +115,14 @@ const METAS: &[PropMeta] = &[
     PropMeta {
         id: "C10",
         level: "fault_enumeration",
-        rule: "clean images as in C09; the newest chunk is cut at EVERY byte position 0..=len, and its tail from EVERY record boundary is replaced by zeros of length {1,2,3,7,8,19,20,21,27,28,29,64,1023,1024,1025,33792}. With tail truncation enabled: open must succeed, state and entries must equal the reference replay of exactly the records completely present, afterwards no file may keep a damaged tail and the damaged file must end at the last complete record, the directory must replay to the same state, and 5 further writes + flush + restart must agree with the model. With truncate_incomplete_record=false: an image with an incomplete/zero tail must be refused with every file untouched; a cut exactly on a record boundary must open with exactly the records present. A case = one open; distinct = distinct clean images. Zero-tail lengths also 65536, 65537, 70000, 200000. Half of the continuations run under a tiny cache with drain_cache_evictable() after recovery and after every write (images built from histories that never re-append at or below a removed id). Zero tails of 21 B - 70 kB are also applied to stores of a second Types instantiation whose vote decoder rejects an all-zero vote with an error kind of its own.",
+        rule: "clean images as in C09; the newest chunk is cut at EVERY byte position 0..=len, and its tail from EVERY record boundary is replaced by zeros of length {1,2,3,7,8,19,20,21,27,28,29,64,1023,1024,1025,33792}. With tail truncation enabled: open must succeed, state and entries must equal the reference replay of exactly the records completely present, afterwards no file may keep a damaged tail and the damaged file must end at the last complete record, the directory must replay to the same state, and 5 further writes + flush + restart must agree with the model. With truncate_incomplete_record=false: an image with an incomplete/zero tail must be refused with every file untouched; a cut exactly on a record boundary must open with exactly the records present. A case = one open; distinct = distinct clean images. Zero-tail lengths also 65536, 65537, 70000, 200000. Half of the continuations run under a tiny cache with drain_cache_evictable() after recovery and after every write (images built from histories that never re-append at or below a removed id). Zero tails of 21 B - 70 kB are also applied to stores of a second Types instantiation whose vote decoder rejects an all-zero vote with an error kind of its own. A sixth of the cuts are also recovered by a store configured with chunk_max_size 1-100 / chunk_max_records 1-2 (configurations may differ between runs).",
         assumptions: &["an empty newest chunk file (cut at 0) counts as cut on a boundary"],
         min_distinct: 4,
     },
     PropMeta {
         id: "C13",
         level: "exploration",
-        rule: "a directory holding a clean store-made image (data, nothing pending) is contended for by 2-8 threads of one process and by 2-6 child processes, each looping {RaftLog::open or Dump::new (1 in 3); if Ok: use it (read all entries / dump), hold briefly, drop}. Threads: an atomic owner counter incremented after open returned Ok and decremented before drop starts must never exceed 1. Processes: ownership intervals [after open Ok, before drop] on CLOCK_MONOTONIC are merged offline and must not overlap. After every refused attempt (threads) and at the end (both) the chunk files must be byte-identical to the original image; after all contenders are gone open must succeed. A case = one attempt (acquisition or refusal); distinct = rounds in which both acquisitions and refusals were observed. Plus: a WRITING owner whose caller thread and worker are stepped through their file-system calls by the gate, with RaftLog::open + Dump::new attempted at every parked point (must be refused; any chunk-file mutation by the contender's thread id in the trace is a violation); an open attempt while the previous owner's drop() has not returned and its worker is parked (must be refused while that worker thread is alive); a fork round (a child forked while the owner was alive still holds inherited descriptors; after the owner is dropped the next open must succeed). Further rounds: the owner is another process (this process is refused, the owner exits, this process must then open); the same directory under other path spellings (symlink, dir/., dir//, dir/../dir); the owner's worker ends on an injected I/O error while the owner lives on (still owned); a second RaftLog/Dump attempted while the instance that took over after a drop is alive.",
+        rule: "a directory holding a clean store-made image (data, nothing pending) is contended for by 2-8 threads of one process and by 2-6 child processes, each looping {RaftLog::open or Dump::new (1 in 3); if Ok: use it (read all entries / dump), hold briefly, drop}. Threads: an atomic owner counter incremented after open returned Ok and decremented before drop starts must never exceed 1. Processes: ownership intervals [after open Ok, before drop] on CLOCK_MONOTONIC are merged offline and must not overlap. After every refused attempt (threads) and at the end (both) the chunk files must be byte-identical to the original image; after all contenders are gone open must succeed. A case = one attempt (acquisition or refusal); distinct = rounds in which both acquisitions and refusals were observed. Plus: a WRITING owner whose caller thread and worker are stepped through their file-system calls by the gate, with RaftLog::open + Dump::new attempted at every parked point (must be refused; any chunk-file mutation by the contender's thread id in the trace is a violation); an open attempt while the previous owner's drop() has not returned and its worker is parked (must be refused while that worker thread is alive); a fork round (a child forked while the owner was alive still holds inherited descriptors; after the owner is dropped the next open must succeed). Further rounds: the owner is another process (this process is refused, the owner exits, this process must then open); the same directory under other path spellings (symlink, dir/., dir//, dir/../dir); the owner's worker ends on an injected I/O error while the owner lives on (still owned); a second RaftLog/Dump attempted while the instance that took over after a drop is alive. Also: the flock() call of the contender fails with ENOLCK/EINTR/EIO/ENOSYS while an owner lives (must still be refused); the owner is dropped while a dump_data() snapshot of it is alive (the next open must succeed).",
         assumptions: &["one host, local file system (tmpfs); flock semantics of Linux", "owners do not write, so any change of a chunk file is attributable to an attempt"],
         min_distinct: 8,
     },
